@@ -25,7 +25,7 @@ def Removable (f : String) : Plan → Prop
       (match k with
        | .sjoin _ _ => True
        | .ljoin => f ∉ l.fields
-       | .ojoin _ _ _ _ => f ∉ s.fields)
+       | .ojoin _ _ _ _ => True)
 
 structure RmOK (db : Db) (f : String) (outer : List String) (p p' : Plan) : Prop where
   good : Good db p' outer
@@ -652,19 +652,36 @@ theorem rm_sim (db : Db) (f : String) : ∀ (p : Plan) (outer : List String) (p'
         | ojoin il ir lk rk =>
           simp only [Good, BinGood] at hg
           obtain ⟨hnds, hgl, hgr, hs2, hlk, hrk'⟩ := hg
-          have hfs : f ∉ s.fields := hrk
-          have hfl : f ∉ l.fields := fun hm => hfs (by rw [hs2]; exact List.mem_append_left _ hm)
-          have hfr : f ∉ r.fields := fun hm => hfs (by rw [hs2]; exact List.mem_append_right _ hm)
-          have IHl := (ihl outer l' hgl hul hrl hl').toStep hfl
-          have IHr := (ihr outer r' hgr hur hrr hr').toStep hfr
-          have hlf : l'.fields = l.fields := by simp only [Plan.fields, IHl.2.1]
-          have hrf : r'.fields = r.fields := by simp only [Plan.fields, IHr.2.1]
-          rw [rmSchema_id hfs]
-          apply RmOK.of_step _ hfs
+          have IHl := ihl outer l' hgl hul hrl hl'
+          have IHr := ihr outer r' hgr hur hrr hr'
+          have hlf := IHl.fields hgl.nodup
+          have hrf := IHr.fields hgr.nodup
+          simp only [nodeExprs] at huex
+          have hfall : f ∉ varsUsedL (lk ++ rk) := not_uses_of_L huex
+          have hfl : f ∉ varsUsedL lk := fun hm => hfall (by
+            obtain ⟨e, he, hx⟩ := mem_varsUsedL.mp hm
+            exact mem_varsUsedL.mpr ⟨e, List.mem_append_left _ he, hx⟩)
+          have hfr : f ∉ varsUsedL rk := fun hm => hfall (by
+            obtain ⟨e, he, hx⟩ := mem_varsUsedL.mp hm
+            exact mem_varsUsedL.mpr ⟨e, List.mem_append_right _ he, hx⟩)
           refine ⟨?_, rfl, ?_⟩
           · simp only [Good, BinGood, hlf, hrf]
-            exact ⟨hnds, IHl.1, IHr.1, hs2, hlk, hrk'⟩
+            refine ⟨by rw [rmSchema_fields hnds]; exact nodup_eraseField hnds, IHl.good, IHr.good, ?_,
+              exprsOK_erase hlk hfl, exprsOK_erase hrk' hfr⟩
+            rw [rmSchema_fields hnds, hs2, eraseField_append]
           · intro ctx hb
-            simp only [denote, IHl.2.2 ctx hb, IHr.2.2 ctx hb, hlf, hrf]
+            simp only [denote, binRows, IHl.sim ctx hb, IHr.sim ctx hb, hlf, hrf]
+            cases hdl : denote db l ctx with
+            | none => rfl
+            | some ls =>
+              cases hdr : denote db r ctx with
+              | none => rfl
+              | some rs =>
+                simp only [Option.map_some]
+                rw [outerJoinRows_erase hfl hfr]
+                apply checked_erase (rmSchema_fields hnds)
+                intro out ho
+                rw [hs2]
+                exact outerJoinRows_names (denote_names hdl) (denote_names hdr) ho
 
 end Octo.Plan
